@@ -209,7 +209,7 @@ func conflictPossible(a, b *threadClass, cat string) bool {
 }
 
 func c20(c *Ctx) {
-	c.R.Explanation = "C20: a may-race over-approximation by lockset analysis (E1+E5) on the SSA of /repo. Thread classes are discovered from the code: actors of the daemon's run.Group (fan start-up goroutine = FanController.Run before its inner group; sensor monitor; web servers), actors of each controller's inner group (control loop, RPM monitor), interrupt functions, REST handlers (function values registered on echo routes), prometheus Collect/Describe methods, and `go` statements. For every class the fields (struct type, field), map contents and package-level variables read or written in its call tree (VTA call graph) are collected together with the must-lockset at the access, computed by an interprocedural typestate whose states are the sets of held mutexes (Lock/RLock add, Unlock/deferred Unlock remove; callee summaries as state relations). Reflective reads by JSON encoding (echo Context.JSON*, json.Marshal) are added from a summary: every exported, non-`json:\"-\"` field of every dynamic type of the argument, recursively through pointers, structs and maps (maps are iterated). A race candidate is a pair of accesses to the same key from two concurrently runnable classes (or two instances of a multi-instance class), at least one a write, with disjoint locksets; pairs that cannot concern the same object are excluded by the private/shared rule (a fan's start-up happens-before its own control loop and RPM monitor; per-fan classes of different fans own different controller / fan / control-loop objects; curves, sensors, registries and globals are shared; a PidLoop reached from a curve's Evaluate is shared, one reached only from a control loop is private). Every candidate on today's tree is recorded as a known finding; any new (key, class pair) is a violation. Map iteration against a map write is flagged crash-capable. Mutex modes: the lockset has two bits per mutex (held in some mode, held exclusively; RLock sets only the first); two accesses are protected against each other only if some mutex is held by both and by at least one of them exclusively - a write under RLock is unprotected against other RLock holders. Each bit is computed by its own two-state typestate (projection of the powerset automaton), so the number of mutexes is not limited. Limitations: type-based object abstraction; only mutex synchronisation is modelled (sync/atomic typed fields are not plain accesses and never flagged)."
+	c.R.Explanation = "C20: a may-race over-approximation by lockset analysis (E1+E5) on the SSA of /repo. Thread classes are discovered from the code: actors of the daemon's run.Group (fan start-up goroutine = FanController.Run before its inner group; sensor monitor; web servers), actors of each controller's inner group (control loop, RPM monitor), interrupt functions, REST handlers (function values registered on echo routes), prometheus Collect/Describe methods, and `go` statements. For every class the fields (struct type, field), map contents and package-level variables read or written in its call tree (VTA call graph) are collected together with the must-lockset at the access, computed by an interprocedural typestate whose states are the sets of held mutexes (Lock/RLock add, Unlock/deferred Unlock remove; callee summaries as state relations). Reflective reads by JSON encoding (echo Context.JSON*, json.Marshal) are added from a summary: every exported, non-`json:\"-\"` field of every dynamic type of the argument, recursively through pointers, structs and maps (maps are iterated). A race candidate is a pair of accesses to the same key from two concurrently runnable classes (or two instances of a multi-instance class), at least one a write, with disjoint locksets; pairs that cannot concern the same object are excluded by the private/shared rule (a fan's start-up happens-before its own control loop and RPM monitor; per-fan classes of different fans own different controller / fan / control-loop objects; curves, sensors, registries and globals are shared; a PidLoop reached from a curve's Evaluate is shared, one reached only from a control loop is private). Every candidate on today's tree is recorded as a known finding; any new (key, class pair) is a violation. Map iteration against a map write is flagged crash-capable. Mutex modes: the lockset has two bits per mutex (held in some mode, held exclusively; RLock sets only the first); two accesses are protected against each other only if some mutex is held by both and by at least one of them exclusively - a write under RLock is unprotected against other RLock holders. Each bit is computed by its own two-state typestate (projection of the powerset automaton), so the number of mutexes is not limited. pool = no function returns a reference into an object obtained from a sync.Pool that it also puts back. Limitations: type-based object abstraction; only mutex synchronisation is modelled (sync/atomic typed fields are not plain accesses and never flagged)."
 	c.R.Assumptions = append(c.R.Assumptions,
 		"run.Group.Add actors run concurrently; echo handlers and prometheus collectors run on library goroutines and may run concurrently with themselves",
 		"reprint.This copies interface-kinded values shallowly, so Snapshot*Map() hands out the live objects",
@@ -477,6 +477,20 @@ func c20(c *Ctx) {
 	c.R.Stats["thread_classes"] = len(classes)
 	c.R.Stats["shared_accesses_collected"] = total
 	c.R.Stats["race_candidates"] = len(keys)
+	// pooled objects: a reference into an object from a sync.Pool must not leave a function that also puts the
+	// object back (the locksets above do not see this sharing: the pool hands the same memory to another goroutine)
+	npool := 0
+	for _, fn := range c.P.Funcs {
+		if len(fn.Blocks) == 0 {
+			continue
+		}
+		for _, pe := range ir.PoolEscapes(fn) {
+			npool++
+			c.R.Bad("pool", c.FK(fn), c.FK(fn), c.P.Pos(pe.Ret.Pos()), "a reference into an object taken from a sync.Pool is returned although the same function puts the object back into the pool ("+c.P.Pos(pe.Put.Pos())+"): the next Get, possibly in another goroutine, overwrites memory the caller is still reading (data race; readers see another caller's data)")
+			break
+		}
+	}
+	c.R.Ok("pool", "summary", "(whole program)", "-", sprintf("%d functions inspected, %d hand out a reference into a pooled object they also release (rule self-test: checker/internal/ir TestPoolEscapes)", len(c.P.Funcs), npool))
 	// positive control: the synchronised accessors must be seen as protected (the engine is not blind)
 	prot := 0
 	for _, as := range accs {
